@@ -288,6 +288,8 @@ func runC12(r *rt.Run) {
 	r.ParFor(len(sp), func(i int, w *rt.Worker) {
 		pair(mkC12(sp[i][0]), mkC12(sp[i][1]), w)
 	})
+	// identity of objects is not part of the encoding: polygons sharing a Ring value answer as separately built ones
+	sharedRings(r, &pools{holed: holed}, "shared-ring-object")
 	// inner shapes on either side of the 16-position shortcut (with / without
 	// closing vertex) x outers with notches, slots, holes and frames
 	bo, bi := poolBigInner(nil)
@@ -299,6 +301,9 @@ func runC12(r *rt.Run) {
 }
 
 func evalC12(c *rt.Case) (bool, string, string, error) {
+	if c.Kind == "shared-ring" {
+		return evalSharedRing(c)
+	}
 	if c.Kind != "pair" || c.X["move"] == "" {
 		return false, "", "", fmt.Errorf("not mine")
 	}
